@@ -276,6 +276,7 @@ type c19Model struct {
 	// a correct implementation discards at the next seek or write but a broken one may keep, so two
 	// histories are merged only if their last read runs agree (cleared by a write and by reopen).
 	hasRun     bool
+	sep        byte // what separated the most recent run of reads from now: 0 nothing yet, 'f' a flush, 's' a seek, 'v' setvbuf (the implementation may treat its read-ahead differently in each case)
 	runA, runE int64
 	// taint: an earlier step on this handle was a case of a recorded defect whose returned value
 	// happened to agree (lines() on a line of exactly 4096 bytes; "*n" over a newline that is followed
@@ -301,7 +302,7 @@ func (m *c19Model) open(mode string) {
 		m.content, m.shared = []byte{}, false
 	}
 	m.cur, m.curKnown = 0, !m.app
-	m.closed, m.buf, m.pending, m.last, m.eof, m.hasRun, m.runA, m.runE, m.unspec, m.taint = false, 0, false, 0, false, false, 0, 0, false, ""
+	m.closed, m.buf, m.pending, m.last, m.eof, m.hasRun, m.runA, m.runE, m.unspec, m.taint, m.sep = false, 0, false, 0, false, false, 0, 0, false, "", 0
 }
 
 func (m *c19Model) update() bool { return m.readable && m.writable }
@@ -586,7 +587,7 @@ func (m *c19Model) apply(op *c19Op) c19Exp {
 			m.content = append(m.content, 0)
 		}
 		copy(m.content[m.cur:end], p)
-		m.cur, m.curKnown, m.last, m.eof, m.hasRun = end, true, 'w', false, false
+		m.cur, m.curKnown, m.last, m.eof, m.hasRun, m.sep = end, true, 'w', false, false, 0
 		if m.buf > 0 {
 			m.pending = true
 		}
@@ -598,7 +599,7 @@ func (m *c19Model) apply(op *c19Op) c19Exp {
 		if m.last != 'r' || !m.hasRun {
 			m.runA = m.cur
 		}
-		m.last, m.hasRun = 'r', true
+		m.last, m.hasRun, m.sep = 'r', true, 0
 		defer func() { m.runE = m.cur }()
 		formats := []string{"*l"}
 		if op.Kind == "read" && op.Arg != "" {
@@ -649,6 +650,9 @@ func (m *c19Model) apply(op *c19Op) c19Exp {
 			return e
 		}
 		m.cur, m.curKnown, m.last, m.eof = base+off, true, 0, false
+		if m.hasRun {
+			m.sep = 's'
+		}
 		if m.pending {
 			m.pending, m.taint = false, "after-seek-over-unflushed-bytes"
 		}
@@ -656,11 +660,18 @@ func (m *c19Model) apply(op *c19Op) c19Exp {
 		return e
 	case "flush":
 		m.pending = false
-		if m.last == 'w' {
-			m.last = 0
+		// the statement names flush as a separator in both directions ("a seek or flush between a read
+		// and a following write"; POSIX fflush on a seekable input stream moves the file offset to the
+		// stream position), so a write may follow a read once the handle was flushed
+		m.last = 0
+		if m.hasRun {
+			m.sep = 'f'
 		}
 		return c19Exp{disk: true}
 	case "setvbuf":
+		if m.hasRun && m.sep == 0 {
+			m.sep = 'v'
+		}
 		if m.writable {
 			m.buf = 0
 			if op.Arg == "full" {
@@ -685,6 +696,7 @@ func (m *c19Model) key(initIdx int) [16]byte {
 	copy(hdr[1:3], m.mode)
 	fl := byte(0)
 	hdr[5] = byte(len(m.taint)) // the three taint strings have different lengths
+	hdr[6] = m.sep
 	for i, b := range []bool{m.closed, m.curKnown, m.pending, m.eof, m.unspec} {
 		if b {
 			fl |= 1 << uint(i)
@@ -1363,7 +1375,7 @@ func runC19(r *harness.Run) {
 		"states are merged only on equal keys, the representative history of a state is the smallest one; non-trivial = distinct states reached by at least one operation"
 	r.Assumptions = []string{
 		"initial cursor of a/a+ handles is not asserted (ISO C leaves it open): reads and relative seeks are enabled only after a seek(\"set\"|\"end\") or a write",
-		"read -> flush -> write is not explored (ISO C requires a positioning call between input and output; fflush after input is undefined)",
+		"read -> flush -> write is judged as the statement words it (flush separates a read from a following write; POSIX gives fflush on a seekable input stream that meaning, ISO C alone leaves it undefined)",
 		"setvbuf on a handle that holds unflushed full-buffered bytes (undefined in ISO C) is judged as: no byte is lost or reordered - they must be on disk at the next flush/close, before whatever is written afterwards",
 		"return values of write, flush, setvbuf and close are not judged (the statement does not fix them); a write on a read-only handle and a read on a write-only handle must return nil first and change nothing",
 		"read(\"*n\") is asserted only where fscanf(\"%lf\") is unambiguous: optional white space, then a plain decimal token followed by white space or end-of-file, or white space up to end-of-file; otherwise the history is not continued",
